@@ -367,6 +367,14 @@ func (s *system) apply(y sym) error {
 	}
 	before := len(st.sink.Pkts)
 	h := &rtp.Header{Version: 2, PayloadType: 96, SSRC: st.cfg.SSRC, SequenceNumber: uint16(u), Timestamp: uint32(ts)}
+	switch y.Size {
+	case 7, 100:
+		// padded packets: the padding octets are appended when the packet is marshalled and are not part of
+		// the payload handed to the writer ("the sum of their payload lengths")
+		h.Padding, h.PaddingSize = true, 3
+	case 1:
+		h.Marker, h.CSRC = true, []uint32{1, 2}
+	}
 	if _, err := st.w.Write(h, payload, interceptor.Attributes{}); err != nil {
 		return &mismatch{"C07:write-error", fmt.Sprintf("write returned %v", err)}
 	}
